@@ -113,26 +113,38 @@ def migrationNoopB (o : BuildOpts) (pns : Str) (r : Rule) : Bool :=
    | some m => migrateTrustDomain o.bundle (nBasePrincipals pns r) m == m) &&
   expandRule o.bundle r == r
 
-/-- The trust-domain part of a five-part principal value is `*` or contains no `*`
-    (`td*/ns/..`-style values are outside the statement's reading of aliases). -/
+/-- The trust-domain part of a five-part principal value is `*` or contains no `*`. -/
 def plainTD (v : Str) : Bool :=
   match splitOn '/' v with
   | [td, _, _, _, _] => td == star || !td.contains '*'
   | _ => true
 
-/-- The bundle: non-empty, entries without `*` and without '/'. -/
+/-- The trust-domain part of a five-part principal value is not a `prefix*` pattern over a trust
+    domain of the bundle.  (For such a value `MigrateTrustDomain` rewrites the value to the mesh's
+    trust domains although nothing in the API makes a `*` in the middle of a value a wildcard:
+    finding 5, `alias_prefix_td_witness`.)  `*`, wildcard-free and `*suffix` parts all pass. -/
+def tdPartOK (bundle : List Str) (v : Str) : Bool :=
+  match splitOn '/' v with
+  | [td, _, _, _, _] => td == star || !(bundle.any fun t => tdPrefixMatch t td)
+  | _ => true
+
+/-- The bundle: non-empty, entries without `*` and without '/' (mesh config validation,
+    `ValidateTrustDomain`, admits DNS-label trust domains only). -/
 def bundleOK (b : List Str) : Bool := !b.isEmpty && b.all fun t => !t.contains '*' && !t.contains '/'
 
-/-- Every `principals`-style value of the rule (in `from` entries and in `when source.principal`)
-    has a plain trust-domain part (`*` or wildcard-free). -/
-def rulePlain (r : Rule) : Bool :=
-  r.froms.all (fun s => (s.principals ++ s.notPrincipals).all plainTD) &&
-  r.whens.all (fun c => c.key != attrSrcPrincipal || (c.values ++ c.notValues).all plainTD)
+/-- Every `principals`-style value of the rule is inside the proved alias reading: values of `from`
+    entries (rewritten once) need `tdPartOK`; values of `when source.principal` are rewritten once per
+    `from` entry (the rules are shared by pointer), which is only idempotent for plain trust-domain
+    parts, so with two or more `from` entries they need `plainTD`. -/
+def rulePlain (b : List Str) (r : Rule) : Bool :=
+  r.froms.all (fun s => (s.principals ++ s.notPrincipals).all (tdPartOK b)) &&
+  r.whens.all (fun c => c.key != attrSrcPrincipal ||
+    (c.values ++ c.notValues).all (if r.froms.length ≤ 1 then tdPartOK b else plainTD))
 
 /-- Trust-domain migration is covered: either it changes nothing, or bundle and values are plain
     (`migration_sem`). -/
 def migrationOKB (o : BuildOpts) (pns : Str) (r : Rule) : Bool :=
-  migrationNoopB o pns r || (bundleOK o.bundle && rulePlain r)
+  migrationNoopB o pns r || (bundleOK o.bundle && rulePlain o.bundle r)
 
 def ruleTranslatedB (o : BuildOpts) (pns : Str) (r : Rule) : Bool :=
   match newModel pns r with
